@@ -36,6 +36,7 @@ B(cmd, tgt, pw, addr, n) == [cmd |-> cmd, tgt |-> tgt, pw |-> pw, addr |-> addr,
 BodiesQ == { B("update", 2, 2, "a", 0),
              B("add",    4, 0, "a", 0),
              B("remove", 3, 0, "b", 0),
+             B("remove", 3, 0, "b", 1),              \* with the previous one in the same block: EndBlock fails
              B("update", 2, 1, "b", 0) }
 
 BodiesM == { B(c, t, p, a, n) : c \in {"add", "update", "remove"}, t \in {2, 4}, p \in {0, 2}, a \in {"a", "b"}, n \in {0, 1} }
